@@ -7,7 +7,9 @@ package yoda
 // C19: the query is retried up to max-try times; it fails only if every attempt failed, and it succeeds
 // exactly when the last attempt it made succeeded (a successful retry is not reported as an error).
 //@ func abciQuery
-//@ modifies RPCok
+//@ modifies RPCok, RPCValue
+// the answer handed to the caller is the node's answer to the attempt that succeeded
+//@ ensures 0 < c.maxTry && c.maxTry <= MaxInt64 && err == nil ==> result.Response.Value == RPCValue
 //@ ensures (c.maxTry > 0 && RPCok) ==> err == nil
 //@ ensures (0 < c.maxTry && c.maxTry <= MaxInt64 && err == nil) ==> RPCok
 //@ loop 0: invariant try >= 0 && (try > 0 ==> !RPCok && lastErr != nil) && (try == 0 ==> lastErr == nil)
@@ -15,7 +17,7 @@ package yoda
 // C19: fetching a data source executable never panics, whatever bytes the cache or the chain returns
 // (executables of a few bytes are legal on chain).
 //@ func GetExecutable
-//@ modifies RPCok
+//@ modifies RPCok, RPCValue
 //@ ensures true
 
 // ghost: number of values sent on channels by the function under contract, and the last value sent
@@ -28,7 +30,7 @@ package yoda
 // exit code 255 when the executable cannot be loaded, the verification message cannot be signed or the
 // executor fails, otherwise the executor's exit code and output.
 //@ func handleRawRequest
-//@ modifies ChanSent, ChanLast, RPCok
+//@ modifies ChanSent, ChanLast, RPCok, RPCValue
 //@ ensures ChanSent == old(ChanSent) + 1
 //@ ensures ChanLast.rawReport.ExternalID == req.externalID
 //@ ensures ChanLast.err != nil ==> ChanLast.rawReport.ExitCode == 255
@@ -37,7 +39,7 @@ package yoda
 // carries as many raw reports as the request has raw requests - failed ones included (with exit code 255) - and
 // the collector never waits for a result that no worker sends.
 //@ func handleRawRequests
-//@ modifies ChanSent, ChanLast, ChanRecv, RPCok
+//@ modifies ChanSent, ChanLast, ChanRecv, RPCok, RPCValue
 //@ requires ChanRecv <= ChanSent
 //@ ensures len(reports) == len(reqs)
 //@ ensures ChanSent - ChanRecv == old(ChanSent) - old(ChanRecv)
@@ -49,11 +51,14 @@ package yoda
 //@ spec chainRequest(id Int) types.Request uninterpreted
 //@ func GetRequest
 //@ trusted
-//@ modifies RPCok
+//@ modifies RPCok, RPCValue
 //@ ensures err == nil ==> result == chainRequest(id)
+// the executable of a data source is looked up (cache, then chain) by the FILE NAME stored in the data source record -
+// the hash of the executable - not by any other string field of the record (name, description are free text)
 //@ func GetDataSourceHash
-//@ trusted
-//@ modifies RPCok
+//@ modifies RPCok, RPCValue
+// (max-try is a positive flag value; with 0 tries there is no answer at all)
+//@ ensures 0 < c.maxTry && c.maxTry <= MaxInt64 && err == nil ==> result == dec(types.DataSource, RPCValue).Filename
 // C19 "never crashes on a request": the key a handler signs with is always one of the configured keys, whatever other
 // handlers do to the shared round-robin counter at the same time (thread-modular: between any two of this goroutine's
 // steps the counter may have been advanced by others; it starts at -1 and only grows)
@@ -70,7 +75,7 @@ package yoda
 //@ ghost Count_handleRequest map[uint64]int
 //@ func handleRequest
 //@ counts id
-//@ modifies ChanSent, ChanLast, ChanRecv, ChanLastMsg, RPCok
+//@ modifies ChanSent, ChanLast, ChanRecv, ChanLastMsg, RPCok, RPCValue
 //@ requires ChanRecv <= ChanSent && len(c.keys) > 0 && c.keyRoundRobinIndex >= -1
 //@ ensures (ChanSent - ChanRecv) - (old(ChanSent) - old(ChanRecv)) == 0 || (ChanSent - ChanRecv) - (old(ChanSent) - old(ChanRecv)) == 1
 //@ ensures !(exists j :: 0 <= j && j < len(chainRequest(id).RequestedValidators) && chainRequest(id).RequestedValidators[j] == addrstr(c.validator)) ==> ChanSent == old(ChanSent)
@@ -97,7 +102,7 @@ package yoda
 // pending set (at start-up yoda subscribes to new transactions BEFORE it sweeps the requests already pending on chain: a
 // request seen by both must be reported once, by the sweep)
 //@ func handleTransaction
-//@ modifies ChanSent, ChanLast, ChanRecv, ChanLastMsg, RPCok, Count_handleRequest
+//@ modifies ChanSent, ChanLast, ChanRecv, ChanLastMsg, RPCok, RPCValue, Count_handleRequest
 //@ requires ChanRecv <= ChanSent && len(c.keys) > 0 && c.keyRoundRobinIndex >= -1
 //@ ensures forall r Int :: has(c.pendingRequests, r) && c.pendingRequests[r] ==> Count_handleRequest[r] == old(Count_handleRequest)[r]
 //@ loop 0: invariant ChanRecv <= ChanSent && c.keyRoundRobinIndex >= -1 && len(c.keys) > 0
